@@ -797,6 +797,7 @@ def rule_shared_wire_layout(R):
     c09.rule_len16(R)
     c09.rule_connect(R)
     c09.rule_prim(R)
+    c09.rule_varint_encoder(R)
 
 
 def rule_shared_qos_wiring(R):
